@@ -2,6 +2,7 @@ import Peppi.Lemmas.GenFile
 import Peppi.Lemmas.Unified2
 import Peppi.Lemmas.Longer
 import Peppi.Lemmas.GeckoU
+import Peppi.Lemmas.C17Perm
 /-! Instances of the general file-level theorem (`readP_gen`) for **every** framing regime at once: the canonical frame events
     of a well-formed replay with declared unknown events spliced in anywhere after the Gecko block, and arbitrary extra bytes
     after Game End.  Consequences: C08 (unknown events) and C17 (fixed point of read/write on tolerated irregularities) for every
@@ -114,6 +115,55 @@ theorem canonEventsAny_run {T : TextOracle} {r : Replay} {s : Start} {gk : Optio
     exact ⟨stF, by simpa [canonEventsAny, h30, h22] using hrun, hctx, hfend, hgecko, hmeta, hdge, by
       simp only [hlt, ↓reduceIte]; exact close_eq_exp _ _ _ _ hinv⟩
 
+/-- the recorder's frame events up to the order of events *inside* a frame: either the canonical stream, or (≥ 3.0, where frames are
+    bracketed by Frame Start / Frame End) every frame's body events in any order that keeps each character's events and the item
+    events in their relative order -/
+def CanonUpToOrder (s : Start) (r : Replay) (es : List (Nat × Bytes)) : Prop :=
+  es = canonEventsAny s.version (portOccupancy s) r.frames ∨
+  (s.version.gte 3 0 = true ∧ ∃ fr : List (FrameOcc × List BEv), Permuted s.version (portOccupancy s) r fr ∧
+    es = fr.flatMap fun ob => frameEventsP s.version (portOccupancy s) ob.1 ob.2)
+
+/-- what the file-level theorem needs of such a stream: it runs to the expected frames touching nothing else, and none of its
+    events is a splitter or Game End -/
+theorem canonUpToOrder_run {T : TextOracle} {r : Replay} {s : Start} {gk : Option GeckoBlocks} (h : r.WFAny T s gk) (st : PState)
+    (hst : st.start = s) (hfr : st.frames = FCols.new s.version (portOccupancy s)) (hpi : st.portIdx = portIdxOf (portOccupancy s))
+    (es : List (Nat × Bytes)) (hc : CanonUpToOrder s r es) :
+    (∃ st', runEvents st es = .ok st' ∧ st'.ctx = st.ctx ∧ st'.fend = st.fend ∧
+      st'.gecko = st.gecko ∧ st'.metadata = st.metadata ∧ st'.doubleGameEnd = st.doubleGameEnd ∧
+      (if s.version.lt 3 0 then st'.frames.close else st'.frames) = expFrames s.version (portOccupancy s) r.frames) ∧
+    (∀ e ∈ es, e.1 ≠ EV_SPLITTER ∧ e.1 ≠ EV_GAME_END) := by
+  rcases hc with rfl | ⟨h30, fr, hp, rfl⟩
+  · refine ⟨canonEventsAny_run h st hst hfr hpi, ?_⟩
+    intro e he
+    obtain ⟨_, a2, a3, _⟩ := canonEventsAny_sizes h 0 0 e he
+    exact ⟨a2, a3⟩
+  · have hA : (∀ o ∈ r.frames, o.OK s.version (nSlots (portOccupancy s))) ∧
+        PortMapOK (portIdxOf (portOccupancy s)) (portOccupancy s) ∧ (∀ p ∈ portOccupancy s, p.port < 256) ∧ s.version.gte 2 2 = true := by
+      rcases h.cases with ⟨g, rfl, hg⟩ | ⟨rfl, _, ha⟩ | ⟨rfl, h30', _, _⟩ | ⟨rfl, h30', _, _⟩
+      · exact ⟨hg.frames, hg.portMap, hg.ports, hg.v22⟩
+      · exact ⟨ha.frames, ha.portMap, ha.ports, ha.v22⟩
+      · rw [h30] at h30'; cases h30'
+      · rw [h30] at h30'; cases h30'
+    obtain ⟨hfrm, hpm, hports, h22⟩ := hA
+    have hokfr : ∀ ob ∈ fr, ob.1.OK s.version (nSlots (portOccupancy s)) := by
+      intro ob hob
+      apply hfrm
+      rw [← hp.frames]; exact List.mem_map.mpr ⟨ob, hob, rfl⟩
+    have hv : st.start.version = s.version := by rw [hst]
+    have hrun := frames_perm s.version (portOccupancy s) h30 h22 hports fr [] st hv (by rw [hfr, FCols_new_eq]) (by rw [hpi]; exact hpm)
+      (fun ob hob => ⟨hokfr ob hob, hp.bodies ob hob⟩)
+    simp only [List.nil_append, hp.frames] at hrun
+    have hlt : s.version.lt 3 0 = false := by simp [Ver.lt, h30]
+    refine ⟨⟨{ st with frames := expFrames s.version (portOccupancy s) r.frames }, hrun, rfl, rfl, rfl, rfl, rfl, by simp [hlt]⟩, ?_⟩
+    intro e he
+    obtain ⟨ob, hob, heo⟩ := List.mem_flatMap.mp he
+    simp only [frameEventsP, List.mem_append, List.mem_cons, List.not_mem_nil, or_false, List.mem_map] at heo
+    rcases heo with (rfl | ⟨b, hb, rfl⟩) | rfl
+    · exact ⟨show EV_FRAME_START ≠ EV_SPLITTER by decide, show EV_FRAME_START ≠ EV_GAME_END by decide⟩
+    · obtain ⟨_, a2, a3, _⟩ := bev_size s.version (portOccupancy s) ob.1.id b ((hp.bodies ob hob).ok b hb) 0 0
+      exact ⟨a2, a3⟩
+    · exact ⟨show EV_FRAME_END ≠ EV_SPLITTER by decide, show EV_FRAME_END ≠ EV_GAME_END by decide⟩
+
 /-- tolerated irregularities of a file: its payload table (`table`: the version's entries, possibly with larger sizes for the
     frame events, plus entries for codes the library does not know), the event stream between the Gecko block (or Game Start)
     and Game End (`mixed`), bytes after Game End up to the declared raw length (`junk`) -/
@@ -134,7 +184,8 @@ def Replay.fileIrr (r : Replay) (s : Start) (gk : Option GeckoBlocks) (i : Irr) 
     metadata := r.metadata }
 
 /-- **well-formed up to tolerated irregularities** (any version): erasing the unknown events from the stream leaves the
-    recorder's canonical frame events, each possibly with extra trailing bytes (a newer version's longer payloads); every
+    recorder's frame events — canonical, or (≥ 3.0) with the events inside each frame in another admissible order — each
+    possibly with extra trailing bytes (a newer version's longer payloads); every
     event of the stream is declared in the payload table with its size; junk follows a single Game End and does not look
     like a second one -/
 structure Irr.OK (T : TextOracle) (r : Replay) (s : Start) (gk : Option GeckoBlocks) (i : Irr) : Prop where
@@ -145,7 +196,7 @@ structure Irr.OK (T : TextOracle) (r : Replay) (s : Start) (gk : Option GeckoBlo
   declStart : (EV_GAME_START, r.startBlock.length) ∈ i.table
   declEnd : (EV_GAME_END, r.endLen s.version) ∈ i.table
   declSplit : ∀ g, gk = some g → (EV_SPLITTER, 516) ∈ i.table
-  erase : Longer (i.mixed.filter (fun e => isKnown e.1)) (canonEventsAny s.version (portOccupancy s) r.frames)
+  erase : ∃ es, Longer (i.mixed.filter (fun e => isKnown e.1)) es ∧ CanonUpToOrder s r es
   declared : ∀ e ∈ i.mixed, e.1 < 256 ∧ (e.1, e.2.length) ∈ i.table
   preOK : ∀ u ∈ i.pre, ∀ e ∈ u, isKnown e.1 = false ∧ e.1 < 256 ∧ (e.1, e.2.length) ∈ i.table
   junkOK : i.junk ≠ [] → (∃ e, r.fend = some e) ∧ r.doubled = false ∧ ¬ looksLikeEnd s.version i.junk
@@ -183,8 +234,9 @@ theorem readP_irregular (T : TextOracle) (r : Replay) (s : Start) (gk : Option G
       ps1.st.sizes = t.reverse ∧ ps1.st.fend = none ∧ ps1.st.metadata = none ∧ ps1.st.doubleGameEnd = none := by
     cases gk <;> exact ⟨rfl, rfl, rfl, rfl, rfl, rfl, rfl⟩
   obtain ⟨p1, p2, p3, p4, p5, p6, p7⟩ := hps1
-  obtain ⟨stF, hrun, hctx, hfend, hgecko, hmeta, hdge, hfr⟩ := canonEventsAny_run hb ps1.st p1 p2 p3
-  have hrun' : runEvents ps1.st i.mixed = .ok stF := by rw [runEvents_erase_unknown]; exact runEvents_longer h.erase _ _ hrun
+  obtain ⟨es, hlonger, hcanon⟩ := h.erase
+  obtain ⟨⟨stF, hrun, hctx, hfend, hgecko, hmeta, hdge, hfr⟩, hcodes⟩ := canonUpToOrder_run hb ps1.st p1 p2 p3 es hcanon
+  have hrun' : runEvents ps1.st i.mixed = .ok stF := by rw [runEvents_erase_unknown]; exact runEvents_longer hlonger _ _ hrun
   have hdecl : ∀ e ∈ i.mixed, e.1 < 256 ∧ e.1 ≠ EV_SPLITTER ∧ e.1 ≠ EV_GAME_END ∧ sizeOfEv ps1.st.sizes e.1 = some e.2.length := by
     intro e he
     rw [p4]
@@ -192,9 +244,9 @@ theorem readP_irregular (T : TextOracle) (r : Replay) (s : Start) (gk : Option G
     cases hk : isKnown e.1 with
     | true =>
       have hmem : e.1 ∈ (i.mixed.filter (fun e => isKnown e.1)).map Prod.fst := List.mem_map.mpr ⟨e, List.mem_filter.mpr ⟨he, hk⟩, rfl⟩
-      rw [h.erase.codes] at hmem
+      rw [hlonger.codes] at hmem
       obtain ⟨e0, he0, hee⟩ := List.mem_map.mp hmem
-      obtain ⟨a1, a2, a3, _⟩ := canonEventsAny_sizes hb r.startBlock.length (r.endLen s.version) e0 he0
+      obtain ⟨a2, a3⟩ := hcodes e0 he0
       rw [hee] at a2 a3
       exact ⟨hc, a2, a3, look _ _ hd⟩
     | false =>
